@@ -15,6 +15,12 @@ def jobs(tier):
         sfx = ('s', 'u') if o in U else ('sss', 'ssu', 'sus', 'suu', 'uss', 'usu') if o == 'cond' else ('ss', 'su', 'us', 'uu')
         for x in sfx:
             J.append(pj(o, x))
+    lv = Job('ppparse.levels', 'harness/c09_parse.c', 'h_pp_levels', defines={'NDEBUG': None}, unwind=3, no_standard_checks=True, object_bits=11,
+             ops=[('rename_def', 'pre_left_op', 'pre_left_op__real', 'vp_model_pre_left_op')], solver='cadical', timeout=600, incdirs=[REPO + '/c2mir'],
+             scope=['pre_left_op'])
+    lv.count_funcs = {'pre_lor_expr', 'pre_land_expr', 'pre_or_expr', 'pre_xor_expr', 'pre_and_expr', 'pre_eq_expr', 'pre_rel_expr', 'pre_sh_expr',
+                      'pre_add_expr', 'pre_mul_expr'}
+    J.append(lv)
     return J
 
 
@@ -28,4 +34,4 @@ def pj(o, x):
         return j
 
 
-META = {'functions': [], 'undecided_part': '', 'trusted_base': ['spec/pp_eval.h (C11 6.10.1, 6.6)']}
+META = {'functions': ['eval (c2mir.c #if evaluator)', 'eval_binop_operands', 'pre_lor_expr', 'pre_land_expr', 'pre_or_expr', 'pre_xor_expr', 'pre_and_expr', 'pre_eq_expr', 'pre_rel_expr', 'pre_sh_expr', 'pre_add_expr', 'pre_mul_expr'], 'undecided_part': '', 'trusted_base': ['spec/pp_eval.h (C11 6.10.1, 6.6)']}
